@@ -240,7 +240,7 @@ Proof.
   - apply peek_slice_nofuel.
   - destruct (as_str text p); exact I.
   - nf_tac.
-  - nf_tac.
+  - destruct (fix_insens fl); nf_tac.
   - apply range_nofuel.
 Qed.
 Lemma core_nofuel p rest r tag : tdepth p <= d -> nofuel r -> nofuel (core fl text rec p rest r tag).
